@@ -16,9 +16,10 @@ Definition view := list byte.
 Definition two64 : N := 18446744073709551616.
 Definition npos : N := 18446744073709551615.
 
-Definition wrap (x : N) : N := x mod two64.
-Definition wsub (a b : N) : N := wrap (a + two64 - b).   (* a - b on size_type, for a, b < 2^64 *)
-Definition wadd (a b : N) : N := wrap (a + b).           (* a + b on size_type *)
+(** a - b and a + b on size_type for a, b < 2^64 (one conditional correction instead of [mod], which is
+    the same function on that domain -- see Lemmas.wsub_mod / wadd_mod -- and extracts to fast code) *)
+Definition wsub (a b : N) : N := if b <=? a then a - b else a + two64 - b.
+Definition wadd (a b : N) : N := let s := a + b in if s <? two64 then s else s - two64.
 
 Fixpoint size (l : view) : N :=
   match l with [] => 0 | _ :: t => N.succ (size t) end.
